@@ -46,8 +46,21 @@ FAMILIES = {
                Versions=[1], Gaps=[1, 2], InitCoins=3, MaxHeight=4),
 }
 
+# escrow keeper driven directly (MC_Escrow): numerically exhaustive
+ESCROW_FAMILIES = {
+    "E": dict(Tenants=["t1"], Providers=["p1", "p2"], Auditors=[], DSeqs=[1], GSeqs=[1], OSeqs=[1], MinDeposit=0, BidMinDeposit=0,
+              DepositChoices=[0, 1, 3, 4], AmountChoices=[2], RateChoices=[1, 2], PayOSeqs=[1], Gaps=[1, 2], MaxHeight=5, InitCoins=6),
+    "E3": dict(Tenants=["t1"], Providers=["p1", "p2", "p3"], Auditors=[], DSeqs=[1], GSeqs=[1], OSeqs=[1], MinDeposit=0, BidMinDeposit=0,
+               DepositChoices=[0, 2, 5, 7], AmountChoices=[1, 3], RateChoices=[1, 2, 3], PayOSeqs=[1], Gaps=[1, 2, 3], MaxHeight=7, InitCoins=12),
+    # simulation only: larger amounts, two payment slots per provider
+    "EL": dict(Tenants=["t1"], Providers=["p1", "p2", "p3"], Auditors=[], DSeqs=[1], GSeqs=[1], OSeqs=[1, 2], MinDeposit=0, BidMinDeposit=0,
+               DepositChoices=[0, 5, 17, 40, 100], AmountChoices=[1, 7, 30], RateChoices=[1, 2, 3, 7, 10], PayOSeqs=[1, 2],
+               Gaps=[1, 2, 5, 11], MaxHeight=1000, InitCoins=400),
+}
+FAMILIES.update(ESCROW_FAMILIES)
+
 # which families matter for which property (quick tier); thorough runs all of them
-QUICK = {"C01": ["S", "A"], "C02": ["A", "S"], "C03": ["S", "A"], "C04": ["S", "A"], "C05": ["S", "A"],
+QUICK = {"C01": ["S", "A", "E"], "C02": ["E", "A"], "C03": ["S", "E"], "C04": ["S", "A"], "C05": ["S", "A"],
          "C06": ["B", "S"], "C07": ["R", "S"], "C08": ["R"], "C16": ["S", "R"]}
 J1_INVS = "InvC01 InvC02 InvC03 InvC04 InvC05"
 J1_PROPS = "StepC01 StepC02 StepC03 StepC06 StepC08"
@@ -57,7 +70,27 @@ def tla_set(xs):
     return "{" + ", ".join(json.dumps(x) if isinstance(x, str) else str(x) for x in xs) + "}"
 
 
+def escrow_cfg(fam, sim, depth):
+    c = FAMILIES[fam]
+    lines = ["SPECIFICATION Spec", "VIEW View", "CONSTANTS"]
+    for k in ("Tenants", "Providers", "Auditors", "DSeqs", "GSeqs", "OSeqs", "DepositChoices", "AmountChoices", "RateChoices",
+              "PayOSeqs", "Gaps"):
+        lines.append("  %s = %s" % (k, tla_set(c[k])))
+    lines.append("  ProvRank <- ProvRankDef")
+    for k in ("MinDeposit", "BidMinDeposit", "InitCoins"):
+        lines.append("  %s = %d" % (k, c[k]))
+    lines.append("  MaxHeight = %d" % (1000 if sim else c["MaxHeight"]))
+    lines.append("  MaxSteps = %d" % (depth if sim else 80))
+    lines.append("  OnlyOK = %s" % ("TRUE" if sim else "FALSE"))
+    lines.append("INVARIANTS InvC01 InvC02 InvC03 ExportNode")
+    lines.append("PROPERTIES StepC01 StepC02 StepC03 StepC06")
+    lines.append("CHECK_DEADLOCK FALSE")
+    return "\n".join(lines) + "\n"
+
+
 def mc_cfg(fam, sim, depth):
+    if fam in ESCROW_FAMILIES:
+        return escrow_cfg(fam, sim, depth)
     c = FAMILIES[fam]
     lines = ["SPECIFICATION Spec", "VIEW View", "CONSTANTS"]
     for k in ("Tenants", "Providers", "Auditors", "DSeqs", "GSeqs", "OSeqs", "DepositChoices", "BidDepositChoices",
@@ -81,7 +114,8 @@ def trace_cfg(fam, which):
     c = FAMILIES[fam]
     t = open(os.path.join(SPEC, "ChainTrace.cfg.tmpl")).read()
     rep = {"TENANTS": c["Tenants"], "PROVIDERS": c["Providers"], "AUDITORS": c["Auditors"], "DSEQS": c["DSeqs"],
-           "GSEQS": c["GSeqs"], "OSEQS": sorted(set(c["OSeqs"]) | {max(c["OSeqs"]) + 1}), "WHICH": which}
+           "GSEQS": c["GSeqs"], "OSEQS": sorted(set(c["OSeqs"]) | {max(c["OSeqs"]) + 1}) if fam not in ESCROW_FAMILIES else c["PayOSeqs"],
+           "WHICH": which}
     for k, v in rep.items():
         t = t.replace("{%s}" % k, tla_set(v))
     return t.replace("BIDMINDEP", str(c["BidMinDeposit"])).replace("MINDEP", str(c["MinDeposit"]))
@@ -106,13 +140,14 @@ def parse_export(out):
 
 def j1(fam, sim, seed, num, depth, timeout):
     cfg = mc_cfg(fam, sim, depth)
+    module = "MC_Escrow" if fam in ESCROW_FAMILIES else "MC_Chain"
     if sim:
         workers = min(8, vlib.NCPU)
-        r = vlib.tlc(SPEC, "MC_Chain", "MC.cfg", workers=workers, timeout=timeout, extra_files={"MC.cfg": cfg},
+        r = vlib.tlc(SPEC, module, "MC.cfg", workers=workers, timeout=timeout, extra_files={"MC.cfg": cfg},
                      simulate=dict(num=max(1, num // workers), depth=depth + 2, seed=seed))
     else:
-        r = vlib.tlc(SPEC, "MC_Chain", "MC.cfg", workers=vlib.NCPU, timeout=timeout, extra_files={"MC.cfg": cfg})
-    vlib.tlc_require_ok(r, "J1 MC_Chain family %s (%s)" % (fam, "simulate" if sim else "exhaustive"))
+        r = vlib.tlc(SPEC, module, "MC.cfg", workers=vlib.NCPU, timeout=timeout, extra_files={"MC.cfg": cfg})
+    vlib.tlc_require_ok(r, "J1 %s family %s (%s)" % (module, fam, "simulate" if sim else "exhaustive"))
     nodes, alpha = parse_export(r.out)
     if not nodes or alpha is None:
         raise vlib.Inconclusive("J1 exported no behaviours for family %s" % fam)
@@ -221,11 +256,17 @@ def run(pid, tier, seed, replay):
     plans = []
     if thorough:
         plans.append(("SX", False, 0, 0, 0))            # exhaustive: every state, whole alphabet at every state
+        if pid in ("C01", "C02", "C03", "C06", "C07"):
+            plans.append(("E", False, 0, 0, 0))
+            plans.append(("EL", True, 1600, 40, 1500))
         for f in ("S", "A", "B", "R"):
             plans.append((f, True, 1600, 32, 1500))
     else:
         for f in QUICK[pid]:
-            plans.append((f, True, 320, 28, 260))
+            if f == "E":
+                plans.append((f, False, 0, 0, 1200))    # exhaustive J1; the alphabet is replayed at a seeded sample of its states
+            else:
+                plans.append((f, True, 320, 28, 260))
     cov = dict(states=0, transitions=0, traces_validated_against_impl=0, evaluations=0, drift_steps=0, configs=[],
                samples=[], exhaustive=False)
     distinct = set()
